@@ -1,5 +1,8 @@
 """C09 -- secret replacements are format-compliant and keep their context."""
 import io
+import os
+import shutil
+import tempfile
 import random
 import re
 
@@ -207,16 +210,41 @@ def check_case(ctx, case):
         warm = "".join("username w%d password Wu%dq%dz\n" % (i, wr.getrandbits(40), i) for i in range(case["warm"]))
         fa.anonymize_io(io.StringIO(warm), io.StringIO())
         ctx.count("runs_with_earlier_secrets")
-    out = io.StringIO()
-    fa.anonymize_io(io.StringIO(line + "\n"), out)
-    got = out.getvalue()
+    # padding around the statement (any white space, not only blanks and tabs) and the line terminator are context too;
+    # a third of the cases go through a real file, where a bare CR is a terminator as well
+    er = random.Random(case["rseed"] ^ 0xE01)
+    pad_l = er.choice(["", "", "", "", "\x0c", "\x0b ", "\x1c", " \xa0", "\x1f\t"])
+    pad_r = er.choice(["", "", "", " ", "\x0c", "\xa0 "])
+    eol = er.choice(["\n", "\n", "\n", "\r\n", "\r"])
+    via_file = eol == "\r" or er.random() < 0.25
+    line = pad_l + line + pad_r
+    parts = [("lit", pad_l)] + list(parts) + [("lit", pad_r)]
+    if via_file:
+        wd = tempfile.mkdtemp(dir=os.path.join(load.VERIF, ".work"))
+        try:
+            with open(os.path.join(wd, "in.cfg"), "w", encoding="utf-8", newline="") as fh:
+                fh.write(line + eol + "exit" + eol)
+            fa.anonymize_file(os.path.join(wd, "in.cfg"), os.path.join(wd, "out.cfg"))
+            with open(os.path.join(wd, "out.cfg"), encoding="utf-8", newline="") as fh:
+                got = fh.read()
+        finally:
+            shutil.rmtree(wd, ignore_errors=True)
+        ctx.count("runs_through_a_file")
+        tail = eol + "exit" + eol
+    else:
+        if eol == "\r":
+            eol = "\n"
+        out = io.StringIO()
+        fa.anonymize_io(io.StringIO(line + eol), out)
+        got = out.getvalue()
+        tail = eol
     ctx.ev()
     sub = secs[0].get("sub", "")
     key_tail = "type7-all-digit" if (cls == "type7" and any(s.get("sub") == "all-digit" for s in secs)) else None
-    if not got.endswith("\n"):
-        ctx.violation(case, "line-terminator-lost", "input %r output %r" % (line, got))
+    if not got.endswith(tail):
+        ctx.violation(case, "line-terminator-lost", "input %r output %r (expected to end with %r)" % (line + tail, got, tail))
         return
-    got = got[:-1]
+    got = got[:-len(tail)]
     m = S.slot_regex(parts).match(got)
     if not m:
         ctx.violation(case, key_tail or "context-changed:form=%s,class=%s" % (f["id"], cls),
